@@ -84,7 +84,15 @@ class Acc:
         self.unit_distinct = set()
 
 
-def process(ctx, acc, lines):
+def hang_persists(ctx, args, h):
+    """Re-run one case alone with a 120 s per-step timeout; True iff some step still hangs (or the re-run failed)."""
+    lines = ctx.harness(list(args) + ["-only", h.get("case", "-1"), "-timeout", 120000, "-noshrink"], timeout=900)
+    if lines is None:
+        return True
+    return any(l.startswith("S ") and " outcome=hang" in l for l in lines)
+
+
+def process(ctx, acc, lines, args=None):
     steps, replays = [], {}
     for l in lines:
         if l.startswith("S "):
@@ -191,6 +199,11 @@ def process(ctx, acc, lines):
                 sig = signature(func, msg, pre, premay, srcfile)
                 what = f"the control plane panics in {func}: {msg}"
             elif ver.startswith("fail hang"):
+                # A per-step wall-clock timeout is not evidence of a hang on a loaded machine: re-run the case alone with
+                # a twelve times larger timeout and report it only if the step still does not return.
+                if args is not None and not hang_persists(ctx, args, h):
+                    acc.slow_steps = getattr(acc, "slow_steps", 0) + 1
+                    continue
                 sig = f"C05:hang:{h.get('profile')}"
                 what = "processing one batch did not return within the per-step timeout"
             elif ver.startswith("fail unreported"):
@@ -392,7 +405,7 @@ def run(ctx):
     else:
         chunks = [(ctx.seed * 1000 + k, 5000) for k in range(10)]
     for seed, n in chunks:
-        process(ctx, acc, ctx.harness(["-seed", seed, "-n", n]) or [])
+        process(ctx, acc, ctx.harness(["-seed", seed, "-n", n]) or [], args=["-seed", seed, "-n", n])
         if len(acc.sigs) > 12:
             break           # a broken tree: enough evidence
     lap("generated")
@@ -404,7 +417,7 @@ def run(ctx):
         sigs_before = set(acc.sigs)
         for k, chunk in enumerate([focus[i:i + 3] for i in range(0, min(len(focus), 9), 3)]):
             n = 1200 if ctx.tier == "quick" else 6000
-            process(ctx, acc, ctx.harness(["-seed", ctx.seed * 7919 + k, "-n", n, "-focus", ",".join(chunk)]) or [])
+            process(ctx, acc, ctx.harness(["-seed", ctx.seed * 7919 + k, "-n", n, "-focus", ",".join(chunk)]) or [], args=["-seed", ctx.seed * 7919 + k, "-n", n, "-focus", ",".join(chunk)])
         focus_steps = acc.steps - before
         acc.focus_found = sorted(set(acc.sigs) - sigs_before)
         ctx.log(f"deref inventory: focused search on {focus[:9]}: {focus_steps} steps, new signatures {acc.focus_found}")
